@@ -14,7 +14,14 @@ import (
 	"strings"
 )
 
-const repoDir = "/repo"
+// repoDir is /repo; GOSYM_REPO (development aid, used by tools/run_seed.sh to
+// try a seeded change in a scratch worktree) points the checks at a copy.
+var repoDir = func() string {
+	if d := os.Getenv("GOSYM_REPO"); d != "" {
+		return d
+	}
+	return "/repo"
+}()
 
 var verifDir = "/verif"
 
